@@ -293,7 +293,7 @@ def c02(ctx):
     n, ops = (120, 40) if q else (1500, 60)
     if not ctx.gv("random-txn-histories", "Trace_Table", ["table", "--mode", "hist", "--mix", "txn", "--seed", str(seed()), "--n", str(n), "--ops", str(ops)]):
         return
-    n, ops = (6, 120) if q else (40, 200)
+    n, ops = (6, 800) if q else (40, 3000)
     ctx.gv("concurrent-readers", "Trace_Table", ["table", "--mode", "conc", "--seed", str(seed()), "--n", str(n), "--ops", str(ops)], racy=True)
 
 
